@@ -1,0 +1,10 @@
+//go:build !verif
+
+// Package verifhook provides observation points for the verification harness
+// in /verif. With the "verif" build tag the functions forward to settable
+// function variables; without it they are empty and inlined away.
+package verifhook
+
+func Emit(name string, args ...int) {}
+
+func Point(name string) {}
